@@ -108,3 +108,24 @@ check("C15", "exploration",
               "recordings_over_more_than_one_interval": 200, "objects_appeared": 1000, "objects_changed": 1000,
               "objects_vanished": 1000, "dup_key_probe": 50, "tick_probe_refused:same-tick": 50,
               "tick_probe_refused:smaller-tick": 50})
+
+check("C11", "exploration",
+      [native("quick")],
+      [native("thorough"), miri(shards=4)],
+      minima={"snapshot_inputs": 100000, "delta_inputs": 100000, "corrupted_snapshots_accepted": 10000, "applications_accepted": 50000,
+              "snapshot_errors": 8, "delta_errors": 7, "apply_errors": 4})
+
+check("C14", "exploration",
+      [native("quick")],
+      [native("thorough"), miri(shards=16)],
+      minima={"codecs_teeworlds-0.5": 61, "codecs_teeworlds-0.6": 76, "codecs_teeworlds-0.7": 98, "codecs_ddnet": 144,
+              "vectors_ok": 30000, "vectors_err": 4000, "vectors_warn": 700, "roundtrip_identical": 28000,
+              "member_order_checked": 200, "random_decode_ok": 50000, "random_decode_err": 50000})
+
+check("C17", "exploration",
+      [native("quick")],
+      [native("thorough"), miri(shards=8)],
+      minima={"streams": 1000, "valid_streams_read_to_finish": 1000, "schedules_run": 500000, "two_piece_splits": 100000,
+              "cb_zero_reads": 100000, "implicit_tick_advances": 10000, "explicit_tick_skips": 10000,
+              "pattern_player_after_skip_cid_not_above": 5000, "buffer_compactions": 10000, "buffer_growths": 1000,
+              "truncations": 100000, "corruptions": 10000, "cb_error_injections": 1000})
